@@ -57,9 +57,11 @@ MUTANTS = [
     ("C10", "catch_removed_from_generate", "src/fcp/codegen.py",
      "    @catch\n    def generate(\n        self,\n        generator_name: str,", "    def generate(\n        self,\n        generator_name: str,"),
     ("C10", "handle_file_writes_underscore_name", "src/fcp/codegen.py",
-     "    path.parent.mkdir(exist_ok=True)\n    path.write_text(", "    path.parent.mkdir(exist_ok=True)\n    path = path.parent / ('_' + path.name)\n    path.write_text("),
+     "    path.parent.mkdir(parents=True, exist_ok=True)\n    path.write_text(", "    path.parent.mkdir(parents=True, exist_ok=True)\n    path = path.parent / ('_' + path.name)\n    path.write_text("),
+    ("C10", "revert_mkdir_parents_fix", "src/fcp/codegen.py",
+     "    path.parent.mkdir(parents=True, exist_ok=True)\n", "    path.parent.mkdir(exist_ok=True)\n"),
     ("C10", "backup_of_overwritten_files", "src/fcp/codegen.py",
-     "    path.parent.mkdir(exist_ok=True)\n", "    path.parent.mkdir(exist_ok=True)\n    if path.exists():\n        path.with_name(path.name + '.bak').write_bytes(path.read_bytes())\n"),
+     "    path.parent.mkdir(parents=True, exist_ok=True)\n", "    path.parent.mkdir(parents=True, exist_ok=True)\n    if path.exists():\n        path.with_name(path.name + '.bak').write_bytes(path.read_bytes())\n"),
     ("C10", "can_c_clears_dir_when_registering_checks",
      ["src/fcp/codegen.py", "plugins/fcp_can_c/fcp_can_c/generator.py"],
      ["        generator.register_checks(self.verifier)\n",
@@ -119,6 +121,8 @@ MUTANTS = [
     ("C04", "revert_enum_width_fix", "src/fcp/encoding.py",
      "            return int(fcp.get_enum(type.name).unwrap().get_packed_size())",
      "            return int(2 ** ceil(log2(fcp.get_enum(type.name).unwrap().get_packed_size())))"),
+    ("C04", "revert_enum_bit_length_fix", "src/fcp/specs/enum.py",
+     "            return int(m).bit_length()\n", "            import math\n            return int(math.log2(m) + 1)\n"),
     ("C04", "drop_bitstart_reset", "src/fcp/encoding.py",
      "        self.encoding = []\n        self.bitstart = 0\n\n        self._generate(",
      "        self.encoding = []\n\n        self._generate("),
